@@ -31,6 +31,16 @@ CHECKS = {
             "Generated-input search: allocation-heavy random histories on volumes with 3..40 free clusters of every width (FAT32 with known / unknown / dirty-ignored FS-info count) plus scripted fill-to-full/delete-all cycles (6 quick, 200 thorough).",
             "trusted: refdec's FAT decoding and slot-run predictor, proptest; a count stored on a volume that was already dirty at mount and never recomputed by stats() is nobody's claim",
             "DESIGN.md 5 C05"),
+    "C06": ("exploration",
+            "property-based testing + bounded-exhaustive sweep: proptest-generated FormatVolumeOptions x boundary/random sizes really formatted on sparse devices and decoded by refdec + strict mount; every sector count swept through the guarded boot-sector hook against independent geometry rules (thorough: all 2^32-1 counts for default options)",
+            "Generated-input search plus, in the thorough tier, complete enumeration of the total-sector range for default options (evidence marks that block exhaustive); quick tier: +-4096 windows around every power of two, all sizes up to 300000, a 2M-point stratified sample and strided sweeps for 4096-byte sectors, one FAT, each forced width and 4 KiB clusters.",
+            "trusted: refdec's geometry rules, the boot-sector hook (cross-validated against sector 0 of every real format of the run), proptest",
+            "DESIGN.md 5 C06"),
+    "C07": ("exploration",
+            "bounded-exhaustive + random input generation: every value of every 8/16-bit BPB field on five valid bases x strict/non-strict, boundary values of 32-bit fields and FS-info words, proptest-generated multi-field combinations and byte damage; oracle = no panic/overflow/budget overrun and agreement with an independent 64-bit parse",
+            "Complete enumeration of single 8/16-bit field values (7.9 M mounts, marked exhaustive) plus generated 32-bit boundaries, 2-6 field combinations and random sectors; accepted volumes must satisfy the property's necessary conditions per refdec and agree on width, cluster size and cluster count.",
+            "trusted: refdec::Geom::derive (u64 arithmetic), proptest; the library may reject more than the necessary conditions",
+            "DESIGN.md 5 C07"),
     "C09": ("fault_enumeration",
             "exhaustive single-fault injection: every device-call position of each representative operation fails once with a tagged error on an instrumented device; oracle = the public call in progress returns Error::Io with that tag, within a device-call budget; random scripts enumerated the same way",
             "Fault enumeration: for each volume (FAT12/16/32, FAT32 with unknown FS-info count) x 26 representative operations, every k-th device call (read, write, seek, flush) of the operation fails once; sequences longer than the tier's cap (free-cluster recounts: two device calls per table entry) are enumerated at their first/last third of the cap and on a stride (evidence says which). Destructor-issued calls are exempt through the drop-depth hook.",
